@@ -149,3 +149,24 @@ def case_of(r):
 def obs_tag(o):
     o = np.asarray(o).reshape(-1)
     return [int(o[0]), int(o[1])]
+
+
+def tab_collect(chk, rng, per):
+    """tabular routines on the scripted discrete environment, with the loop skeleton evaluated on the same script"""
+    import tabruns
+    recs, exprs = [], []
+    for name in tabruns.ROUTINES:
+        for _ in range(per):
+            script = [(int(rng.choice([1, 2, 3, 5])), str(rng.choice(["term", "trunc"]))) for _ in range(3)]
+            total = int(rng.choice([0, 1, 7, 12]))
+            ns, na = int(rng.choice([3, 5])), int(rng.choice([2, 3]))
+            eps = float(rng.choice([0.0, 0.5, 1.0]))
+            res = tabruns.run(name, ns, na, script, total, seed=int(rng.integers(0, 1000)), epsilon=eps)
+            case = {"routine": "train_" + name, "script": script, "total_timesteps": total, "n_states": ns, "n_actions": na, "epsilon": eps}
+            recs.append({"name": name, "case": case, "res": res})
+            exprs.append(model_expr("tabular", script, total, 0, None, 1, 0, 1))
+            chk.case(("tabular", str(case)), nontrivial=total > 0)
+            chk.count("runs_" + name)
+    for r, m in zip(recs, chk.model_eval(exprs, per_file=40)):
+        r["model"] = m
+    return recs
